@@ -13,7 +13,7 @@ import hashlib
 import numpy as np
 
 from . import qsem, ring
-from .ring import Poly, Unsupported
+from .ring import Poly, Unsupported, ShapeChanged
 from .sym import Ctx, SBool, Infeasible, PathLimit, Obligation
 from .interp import Interp, has_sym, _INTERNAL
 
@@ -231,6 +231,15 @@ class Harness:
                     pass
         return None
 
+    def shape(self, name, cond, detail=""):
+        """a SHAPE precondition of a modular contract (how the code builds its result: which callee is called, from which sequence term, which list is handed on).
+        If it does not hold the modular proof does not apply to this code: the contract is skipped with a note (ShapeChanged), it is not a violation"""
+        if isinstance(cond, (Poly, SBool)):
+            cond = bool(cond)
+        if not cond:
+            raise ShapeChanged(f"{name}" + (f" [{detail}]" if detail else ""))
+        return True
+
     def done(self):
         self.reached_end = True
 
@@ -324,7 +333,7 @@ def run_task(cid, st, tier="quick", timeout_ms=20000, both=False, seed=0):
         _ABORT[0] = True
         raise PathLimit("task time limit")
     _ABORT[0] = False
-    limit = int(os.environ.get("TVERIF_TASK_LIMIT", "120" if tier == "quick" else "900"))
+    limit = int(os.environ.get("TVERIF_TASK_LIMIT", "400" if tier == "quick" else "1800"))     # generous: verdicts must not flip when every core is busy
     signal.signal(signal.SIGALRM, _alarm)
     signal.alarm(limit)
     try:
@@ -360,7 +369,15 @@ def _run_task(c, cid, st, tier, timeout_ms, both, seed, t0):
                     ended += 1
                 except Infeasible:
                     pass
-                except (Unsupported, PathLimit, RecursionError) as e:
+                except Unsupported as e:
+                    if c.level == "P":
+                        # (P contracts: any construct outside the subset is a code shape the modular proof was not written for)
+                        # modular proof not applicable to the code's current shape: skipped (note), the S / B contracts of the same function decide
+                        ctx.obligations.append(Obligation(f"{cid}::modular-proof-applies", "skipped", "-", 0.0, f"{e}", None, "".join("T" if d else "F" for d in ctx.trace), "shape"))
+                        ended += 1
+                    else:
+                        ctx.undecided(f"{cid}::supported-subset", f"{type(e).__name__}: {e}", kind="subset")
+                except (PathLimit, RecursionError) as e:
                     ctx.undecided(f"{cid}::supported-subset", f"{type(e).__name__}: {e}", kind="subset")
                 except _INTERNAL:
                     raise
@@ -452,8 +469,8 @@ def replay_one(cid, st, values, obligation_name):
 # ---------------------------------------------------------------------------------------------------------------------
 # ghost containers: an OPAQUE old value of unknown size plus the updates recorded during the call (unbounded contracts)
 
-class GhostUnsupported(Unsupported):
-    pass
+class GhostUnsupported(ShapeChanged):
+    """an operation on an opaque container / value that the modular contract did not anticipate: the code's shape differs from the one the contract was written for"""
 
 
 class GhostList:
